@@ -37,3 +37,11 @@ Theorem C08_stop_times_rows_any_order : forall pf stops trips hdr rows rows',
   parse_stop_times pf stops trips hdr rows = parse_stop_times pf stops trips hdr rows'.
 Proof. exact stop_times_rows_any_order. Qed.
 Print Assumptions C08_stop_times_rows_any_order.
+(* shapes.txt: the rows of different shapes interleaved and unsorted in any way give the same shapes (points in sequence
+   order, shapes by id), provided no shape has two accepted rows with the same shape_pt_sequence *)
+Theorem C08_shapes_rows_any_order : forall pf hdr rows rows',
+  Permutation rows rows' ->
+  (forall sid, NoDup (map sr_seq (rows_of sid (filter_map (fun cells => s_contrib pf (view hdr cells)) rows)))) ->
+  parse_shapes pf hdr rows = parse_shapes pf hdr rows'.
+Proof. exact shapes_rows_any_order. Qed.
+Print Assumptions C08_shapes_rows_any_order.
